@@ -9,6 +9,7 @@ use std::format;
 use std::fs::File;
 use std::io::Write;
 use std::string::String;
+use std::sync::atomic::{AtomicBool, Ordering};
 use std::sync::Mutex;
 
 struct St {
@@ -21,7 +22,13 @@ struct St {
 }
 static ST: Mutex<St> = Mutex::new(St { init: false, f: None, written: 0, cap: 0, stride: 1, tick: 0 });
 
+/// set once it is known that nothing (more) will be written: the hooks then cost one relaxed load and take no lock
+static OFF: AtomicBool = AtomicBool::new(false);
+
 fn emit(mk: impl FnOnce() -> String) {
+    if OFF.load(Ordering::Relaxed) {
+        return;
+    }
     let mut st = match ST.lock() {
         Ok(s) => s,
         Err(_) => return,
@@ -38,6 +45,7 @@ fn emit(mk: impl FnOnce() -> String) {
         }
     }
     if st.f.is_none() || st.written >= st.cap {
+        OFF.store(true, Ordering::Relaxed);
         return;
     }
     st.tick += 1;
